@@ -160,7 +160,10 @@ def run_item(item):
                 err = ("rng-leak", "the global torch generator was consumed outside the seam")
             return sm.calls, (out, err, script)
 
-        bound = (bnd["deviations"] if G.depth(a) <= 1 else 0) if deviate else 0     # nestings of two operators: default answers only
+        # deviate: False/0 = default answers only; True/1 = one deviation; 2 = the tier's full deviation bound
+        # (only the domain's own random sampling with few rows); nestings of two operators: default answers only
+        level = int(deviate)
+        bound = 0 if (level == 0 or G.depth(a) >= 2) else (bnd["deviations"] if level >= 2 else 1)
         for script, (out, err, _) in explore_deviations(run, bound):
             res["evals"] += 1
             sc = ",".join("%d:%s" % kv for kv in sorted(script.items())) or "NET"
@@ -228,7 +231,7 @@ def run_item(item):
                     prm = prm_of(batch)
                     execute("domain.%s:n" % meth, "n=%d k=%d %s" % (n, k, batch),
                             (lambda D=D, meth=meth, n=n, prm=prm: getattr(D, meth)(n=n, params=prm)),
-                            prm, False, deviate=(n in dev_ns and meth == "sample_random_uniform"))
+                            prm, False, deviate=(2 if k <= 1 else 1) if (n in dev_ns and meth == "sample_random_uniform") else 0)
             for d in densities(batch):
                 for meth in ("sample_random_uniform", "sample_grid"):
                     D = Bd.build_tp(a)
